@@ -285,6 +285,8 @@ func init() {
 				for i := 0; i < nfs; i++ {
 					cs = append(cs, fw.Case{ID: fmt.Sprintf("frishape/%d", i), Kind: "frishape", P: map[string]any{"i": i}})
 				}
+				cs = append(cs, fw.Case{ID: "twotranscripts/A_testdata+A_testjson", Kind: "twotranscripts", P: map[string]any{"inst": "A_testdata", "other": "A_testjson"}})
+				cs = append(cs, fw.Case{ID: "twotranscripts/B_random_CGZ+B_epoch_CbAH", Kind: "twotranscripts", P: map[string]any{"inst": "B_random_CGZ", "other": "B_epoch_CbAH"}})
 				for _, n := range instNames(ctx.Quick) {
 					cs = append(cs, fw.Case{ID: "transcript/" + n, Kind: "transcript", P: map[string]any{"inst": n}})
 					nr := 2
@@ -344,6 +346,58 @@ func init() {
 						o.Trivial = c.Kind == "history" && len(h) == 0
 					}
 					o.Sample = map[string]any{"ops": len(h), "challenges": len(want)}
+				case "twotranscripts":
+					// one VerifierChip deriving the challenges of two proofs: each transcript starts fresh
+					a, b := getInst(c.Str("inst")), getInst(c.Str("other"))
+					var f1, f2 []frontend.Variable
+					flatten := func(ch variables.ProofChallenges) []frontend.Variable {
+						var flat []frontend.Variable
+						for _, v := range ch.PlonkBetas {
+							flat = append(flat, v.Limb)
+						}
+						for _, v := range ch.PlonkGammas {
+							flat = append(flat, v.Limb)
+						}
+						for _, v := range ch.PlonkAlphas {
+							flat = append(flat, v.Limb)
+						}
+						flat = append(flat, ch.PlonkZeta[0].Limb, ch.PlonkZeta[1].Limb)
+						fc := ch.FriChallenges
+						flat = append(flat, fc.FriAlpha[0].Limb, fc.FriAlpha[1].Limb)
+						for _, x := range fc.FriBetas {
+							flat = append(flat, x[0].Limb, x[1].Limb)
+						}
+						flat = append(flat, fc.FriPowResponse.Limb)
+						for _, q := range fc.FriQueryIndices {
+							flat = append(flat, q.Limb)
+						}
+						return flat
+					}
+					res := harnRunOpt(engine.Options{Face: engine.Native}, func(api frontend.API) error {
+						vc := verifier.NewVerifierChip(api, a.Common)
+						f1 = flatten(vc.GetChallenges(a.PWI.Proof, vc.GetPublicInputsHash(a.PWI.PublicInputs), a.VD))
+						f2 = flatten(vc.GetChallenges(b.PWI.Proof, vc.GetPublicInputsHash(b.PWI.PublicInputs), b.VD))
+						return nil
+					})
+					o.Events += events(res)
+					if res.Verdict != engine.Accept {
+						return fw.Violate("get_challenges_failed", resStr(res))
+					}
+					for k, pair := range []struct {
+						in   *instT
+						flat []frontend.Variable
+					}{{a, f1}, {b, f2}} {
+						p, _ := toRefProof(&pair.in.PWI)
+						rch, _ := ref.GetChallenges(p, toRefVD(&pair.in.VD), refCommon(pair.in))
+						want := refChallengesFlat(rch)
+						for i := range want {
+							if engine.Value(pair.flat[i]).Uint64() != want[i] {
+								return fw.Violate("wrong_transcript_challenge_on_reused_chip", fmt.Sprintf("transcript #%d derived by one VerifierChip: challenge #%d circuit %s reference %d", k+1, i, engine.Value(pair.flat[i]), want[i]))
+							}
+						}
+						o.Add("challenges_compared", len(want))
+					}
+					o.Inc("transcript_pairs_on_one_chip")
 				case "frishape":
 					// GetFriChallenges on random shapes: 0..4 commit-phase caps of 1..16 entries, final
 					// polynomial of 0..20 coefficients, 0..40 query indices, after a random prefix
